@@ -19,7 +19,7 @@ RULE = (
     "workloads {idle, one command in flight, four queued commands of mixed priority, reset in progress, start-up} x NCP "
     "version {4, 8, 13} (quick: 8) x every wire event of the fault-free run x {before, after} x failure kind {ERROR(0x51), "
     "ERROR(0x80), unsolicited RSTACK(0x02 power-on), RSTACK(0x03 watchdog), NCP silent, connection_lost(exc), EOF, "
-    "deliberate close()} x {no line noise, a stray XOFF, XOFF+XON from the NCP before the workload}; plus Hypothesis cases with a generated injection instant and optional line faults. "
+    "deliberate close()} x {no line noise, a stray XOFF, XOFF+XON from the NCP before the workload}, and for the non-start-up workloads with an earlier command left unanswered (caller timed out / gave up) and with callers that abandon their requests after 2 s / 5 s; plus Hypothesis cases with a generated injection instant and optional line faults. "
     "Non-trivial = the injection happened while at least one call was pending; distinct by plan."
 )
 ASSUMPTIONS = [
@@ -100,6 +100,9 @@ async def scenario(loop, plan, out):
         stack.line.hook = hook
 
         def start(name, coro):
+            if plan.get("giveup") is not None:
+                # the caller abandons its request after a while (a request timeout shorter than the link's retry budget)
+                coro = asyncio.wait_for(coro, plan["giveup"])
             calls.append((name, asyncio.ensure_future(coro), loop.time()))
 
         async def noise():
@@ -117,6 +120,17 @@ async def scenario(loop, plan, out):
         else:
             await ezsp.startup_reset()
             await asyncio.sleep(0.5)
+            if plan.get("stale"):
+                # earlier history: one command was acknowledged by the link but never answered (its caller timed out, or
+                # gave up) - whatever that leaves behind is still there when the failure strikes
+                stack.ncp.script["getNodeId"] = lambda sim, args: None
+                old = asyncio.ensure_future(ezsp.getNodeId())
+                if plan["stale"] == "cancel":
+                    await asyncio.sleep(0.05)
+                    old.cancel()
+                await asyncio.wait([old], timeout=15)
+                del stack.ncp.script["getNodeId"]
+                await asyncio.sleep(0.5)
             await noise()
             arm_faults()
             base["g"] = stack.line.n_global
@@ -144,6 +158,9 @@ async def scenario(loop, plan, out):
         t_wait = (inj["t"] if inj["t"] is not None else loop.time()) + BOUND + 30
         while any(not x.done() for x in tasks) and loop.time() < t_wait:
             await asyncio.sleep(0.5)
+        if inj["t"] is not None and loop.time() < inj["t"] + BOUND + 1:
+            # callers may have given up early; the link keeps trying in the background and reports within the bound
+            await asyncio.sleep(inj["t"] + BOUND + 1 - loop.time())
         out["n_units"] = stack.line.n_global - base["g"]
         out["ends"] = [(c[0], c[1].done(), None) for c in calls]
         out["end_time"] = loop.time()
@@ -191,6 +208,10 @@ def check(plan) -> Result:
     r.cls("workload:" + plan["workload"], "kind:" + kind)
     if plan.get("noise"):
         r.cls("flow-control-noise")
+    if plan.get("stale"):
+        r.cls("stale-unanswered-command:" + plan["stale"])
+    if plan.get("giveup") is not None:
+        r.cls("callers-give-up")
     if plan.get("at") is None and plan.get("at_time") is None:
         # fault-free reference run
         if out["resets"]:
@@ -243,8 +264,9 @@ def replay(plan) -> Result:
 
 
 def _worker_enum(ctx, job):
-    v, wl, noise = job
+    v, wl, noise, extra = job
     base = {"v": v, "workload": wl, "kind": "none"}
+    base.update(extra)
     if noise:
         base["noise"] = noise
     r0 = check(base)
@@ -259,6 +281,7 @@ def _worker_enum(ctx, job):
     for at, pos in points:
         for kind in KINDS:
             plan = {"v": v, "workload": wl, "kind": kind, "at": at, "pos": pos}
+            plan.update(extra)
             if noise:
                 plan["noise"] = noise
             ctx.check(plan, check(plan), sample=(kind == "silent" and at == 2))
@@ -272,6 +295,10 @@ fate = st.one_of(st.just(["d"]), st.just(["d"]), st.just(["d"]), st.just(["x"]),
 def plans(draw):
     plan = {"v": draw(st.sampled_from([4, 5, 7, 8, 11, 13, 14])), "workload": draw(st.sampled_from(WORKLOADS)),
             "kind": draw(st.sampled_from(KINDS)), "at_time": draw(st.sampled_from([0.0001, 0.0015, 0.0021, 0.0042, 0.011, 0.3, 1.7, 2.9]))}
+    if draw(st.integers(0, 3)) == 0:
+        plan["stale"] = draw(st.sampled_from(["timeout", "cancel"]))
+    if draw(st.integers(0, 3)) == 0:
+        plan["giveup"] = draw(st.sampled_from([0.5, 2.0, 5.0, 11.0]))
     if draw(st.integers(0, 2)) == 0:
         plan["noise"] = draw(st.lists(st.sampled_from([0x13, 0x11]), min_size=1, max_size=3))
     if draw(st.integers(0, 2)) == 0:
@@ -287,7 +314,9 @@ def _worker(ctx, n):
 def run(ctx):
     quick = ctx.tier == "quick"
     vs = [4, 8] if quick else list(range(4, 15))
-    jobs = [(v, wl, noise) for v in vs for wl in WORKLOADS for noise in (None, [0x13], [0x13, 0x11])]
+    jobs = [(v, wl, noise, {}) for v in vs for wl in WORKLOADS for noise in (None, [0x13], [0x13, 0x11])]
+    jobs += [(v, wl, None, extra) for v in vs for wl in ("idle", "one", "queue", "reset")
+             for extra in ({"stale": "timeout"}, {"stale": "cancel"}, {"giveup": 2.0}, {"giveup": 5.0, "stale": "cancel"})]
     ctx.parallel(_worker_enum, jobs)
     ctx.exhaustive["every wire event x before/after x 8 failure kinds for the listed workloads and versions"] = True
     ctx.parallel(_worker, [60] * 16 if quick else [5000] * 16)
